@@ -94,6 +94,21 @@ PROPS['C03'] = dict(
     not_covered=['thread interleavings (C04)', 'that the tree layer never frees a page still reachable from an open snapshot (A1)'],
 )
 
+PROPS['C06'] = dict(
+    level='proof',
+    units=['guards', 'commit', 'txn'],
+    census='ReadOnlyTx',
+    explanation='Uncommitted / failed / read-only work leaves no trace: G1 proves on the real bodies that each of the nine mutators (Bucket::{put, delete, create_bucket, '
+                'get_or_create_bucket, delete_bucket}, Tx::{create_bucket, get_or_create_bucket, delete_bucket, commit}) returns ReadOnlyTx on a read-only handle, and that the '
+                'first mutable borrow of shared transaction state happens only on a writable handle (anchored assertion in front of it, so a guard placed after the mutation fails); '
+                'Tx::get_bucket hands out a handle that is writable iff the transaction is. X1/X2: beginning and ending a transaction append nothing to the file trace; the writer works on a '
+                'clone of the free list. W1: the shared free list is replaced only after the header is durable (w7, anchored) and every Err exit precedes the header write except the known finding E2.',
+    level_text='Contracts on the real bodies of every mutating entry point and of begin/end/commit, for all inputs.',
+    level_note='InnerBucket methods are assumed never to answer ReadOnlyTx (backed by a census of the token in src/, recorded in the evidence). Known finding E2 listed. Opening an existing file (O1) is covered by C15/C16 units when built.',
+    assumptions=[A_TOOLS, A_ARITH, A_SEQ, A_FILE, 'RefCell stand-in: sequential view, borrow-flag panics not modelled', 'InnerBucket::* (tree layer) by assumed contract: never returns ReadOnlyTx; frame tree_frame on the TxFreelist'],
+    not_covered=['"a call that returns an error changes nothing" for the bucket-level mutators (tree layer not under contract)', 'later commits behaving as if an abandoned transaction never existed is by X1 (fresh clone) + paper argument'],
+)
+
 PENDING = 'not claimed yet in this build session: deciding units are not built (see DESIGN section 10)'
 NOT_APPLICABLE = {
     'C04': 'quantifies over thread schedules; Kani has no threads, Verus would need the code rewritten onto its permission types (a model) — DESIGN section 6',
@@ -101,5 +116,5 @@ NOT_APPLICABLE = {
     'C13': 'quantifies over schedules of OS processes and flock semantics; a sequential contract cannot decide mutual exclusion — DESIGN section 6',
     'C14': 'quantifies over client programs and is decided by rustc borrow/Send checking of each program, not by contracts on jammdb bodies — DESIGN section 6',
 }
-for _p in ['C01', 'C05', 'C06', 'C07', 'C08', 'C16']:
+for _p in ['C01', 'C05', 'C07', 'C08', 'C16']:
     NOT_APPLICABLE.setdefault(_p, PENDING)
